@@ -559,15 +559,12 @@ def explore(run_fn, bound, root=()):
     preemption cost is <= bound.  Yields (chooser, result_of_run_fn)."""
     root = list(root)
     prefix = list(root)
-    first_shape = None
     while prefix is not None:
         ch = DFSChooser(prefix)
         result = run_fn(ch)
         if ch.i < len(prefix):
             raise SchedulerError('nondeterministic re-execution: run took %d decisions, prefix has %d'
                                  % (ch.i, len(prefix)))
-        if first_shape is None:
-            first_shape = ch.shape
         yield ch, result
         prefix = _next_prefix(ch.shape, bound, len(root))
 
